@@ -118,8 +118,11 @@ def prove(goal, extra=(), timeout_ms=20000, with_path=True, mono=False):
 
 def residue_zero(an, ad, bn, bd):
     """polynomial residue an*bd - bn*ad in sum-of-monomials normal form"""
+    t0 = time.time()
     res = core.t_sub(core.t_mul(an, bd), core.t_mul(bn, ad))
-    return z3.simplify(res, som=True)
+    out = z3.simplify(res, som=True)
+    STATS.solver_s += time.time() - t0
+    return out
 
 
 def prove_eq(a, b, extra=(), timeout_ms=20000, tol=None):
@@ -136,7 +139,6 @@ def prove_eq(a, b, extra=(), timeout_ms=20000, tol=None):
         return prove(x[0] == 0, extra, timeout_ms)
     t0 = time.time()
     res = residue_zero(an, ad, bn, bd)
-    STATS.solver_s += time.time() - t0
     if is_num(res) and numval(res) == 0:
         STATS.trivial += 1
         STATS.queries["unsat"] += 1
